@@ -442,9 +442,12 @@ class FunctionReference:
         assert isinstance(qualified_name, str), "Qualified name must be a str"
 
         # Parse information from the string
+        # The cluster ends at the first "::", the module at the next ":" and the function name
+        # at the first "#"; whatever follows is the version, which may contain ":" and "#".
         match = re.match(
-            r"((?P<cluster>.*)::)?(?P<module>.*):(?P<function>[^#]*)(#(?P<version>.*))?",
+            r"((?P<cluster>[^#]*?)::)?(?P<module>[^:#]*):(?P<function>[^#:]*)(#(?P<version>.*))?$",
             qualified_name,
+            re.DOTALL,
         )
         if not match:
             raise ValueError(
